@@ -1,7 +1,7 @@
 (* GENERATED from oslo_utils/strutils.py by tools/gen/gen_C10.py (statement-level) on every run. Do not edit. *)
 
 Require Import OV.Base.Bytes OV.Base.Py OV.Base.PyInt OV.Base.Str OV.Base.Regex OV.Base.PyFloat.
-Require Import OV.Gen.C10_Units OV.Model.C10.
+Require Import OV.Model.C10_Regex OV.Gen.C10_Units OV.Model.C10.
 Open Scope Z_scope.
 Definition gen_default_unit_system : str := [73;69;67]%N.
 Definition gen_string_to_bytes (text unit_system : str) (return_int : bool) : res num :=
@@ -9,7 +9,7 @@ match lookup unit_system unit_system_info with
 | None => (
 Exn ValueError)
 | Some (base, reg_ex) => (
-let match_ := re_match reg_ex text in
+let match_ := rz_match reg_ex text in
 match match_ with
 | Some (_, g_match) => (
 match float_of_optstr (group_text text g_match 1%nat) with Exn e_ => Exn e_ | Ok magnitude =>
@@ -27,49 +27,89 @@ let base := Some (1000)%Z in
 if (negb (truthy unit_prefix)) then (
 let res := magnitude in
 if return_int then (
-match ceil_to_Z res with Exn e_ => Exn e_ | Ok z_ => Ok (NInt z_) end) else (
+match ceil_to_Z res with
+| Ok z_ => Ok (NInt z_)
+| Exn e_ => match e_ with OverflowError => (
+Exn ValueError)
+| _ => Exn e_ end
+end) else (
 Ok (NFloat res))) else (
 match lookup_opt unit_prefix unit_prefix_exponent with None => Exn KeyError | Some e_ =>
 match py_pow base e_ with Exn x_ => Exn x_ | Ok p_ =>
 match f_mul_int magnitude p_ with Exn x_ => Exn x_ | Ok res =>
 if return_int then (
-match ceil_to_Z res with Exn e_ => Exn e_ | Ok z_ => Ok (NInt z_) end) else (
+match ceil_to_Z res with
+| Ok z_ => Ok (NInt z_)
+| Exn e_ => match e_ with OverflowError => (
+Exn ValueError)
+| _ => Exn e_ end
+end) else (
 Ok (NFloat res)) end end end)) else (
 let base := Some (1000)%Z in
 if (negb (truthy unit_prefix)) then (
 let res := magnitude in
 if return_int then (
-match ceil_to_Z res with Exn e_ => Exn e_ | Ok z_ => Ok (NInt z_) end) else (
+match ceil_to_Z res with
+| Ok z_ => Ok (NInt z_)
+| Exn e_ => match e_ with OverflowError => (
+Exn ValueError)
+| _ => Exn e_ end
+end) else (
 Ok (NFloat res))) else (
 match lookup_opt unit_prefix unit_prefix_exponent with None => Exn KeyError | Some e_ =>
 match py_pow base e_ with Exn x_ => Exn x_ | Ok p_ =>
 match f_mul_int magnitude p_ with Exn x_ => Exn x_ | Ok res =>
 if return_int then (
-match ceil_to_Z res with Exn e_ => Exn e_ | Ok z_ => Ok (NInt z_) end) else (
+match ceil_to_Z res with
+| Ok z_ => Ok (NInt z_)
+| Exn e_ => match e_ with OverflowError => (
+Exn ValueError)
+| _ => Exn e_ end
+end) else (
 Ok (NFloat res)) end end end)))
 end) else (
 let base := Some (1024)%Z in
 if (negb (truthy unit_prefix)) then (
 let res := magnitude in
 if return_int then (
-match ceil_to_Z res with Exn e_ => Exn e_ | Ok z_ => Ok (NInt z_) end) else (
+match ceil_to_Z res with
+| Ok z_ => Ok (NInt z_)
+| Exn e_ => match e_ with OverflowError => (
+Exn ValueError)
+| _ => Exn e_ end
+end) else (
 Ok (NFloat res))) else (
 match lookup_opt unit_prefix unit_prefix_exponent with None => Exn KeyError | Some e_ =>
 match py_pow base e_ with Exn x_ => Exn x_ | Ok p_ =>
 match f_mul_int magnitude p_ with Exn x_ => Exn x_ | Ok res =>
 if return_int then (
-match ceil_to_Z res with Exn e_ => Exn e_ | Ok z_ => Ok (NInt z_) end) else (
+match ceil_to_Z res with
+| Ok z_ => Ok (NInt z_)
+| Exn e_ => match e_ with OverflowError => (
+Exn ValueError)
+| _ => Exn e_ end
+end) else (
 Ok (NFloat res)) end end end))) else (
 if (negb (truthy unit_prefix)) then (
 let res := magnitude in
 if return_int then (
-match ceil_to_Z res with Exn e_ => Exn e_ | Ok z_ => Ok (NInt z_) end) else (
+match ceil_to_Z res with
+| Ok z_ => Ok (NInt z_)
+| Exn e_ => match e_ with OverflowError => (
+Exn ValueError)
+| _ => Exn e_ end
+end) else (
 Ok (NFloat res))) else (
 match lookup_opt unit_prefix unit_prefix_exponent with None => Exn KeyError | Some e_ =>
 match py_pow base e_ with Exn x_ => Exn x_ | Ok p_ =>
 match f_mul_int magnitude p_ with Exn x_ => Exn x_ | Ok res =>
 if return_int then (
-match ceil_to_Z res with Exn e_ => Exn e_ | Ok z_ => Ok (NInt z_) end) else (
+match ceil_to_Z res with
+| Ok z_ => Ok (NInt z_)
+| Exn e_ => match e_ with OverflowError => (
+Exn ValueError)
+| _ => Exn e_ end
+end) else (
 Ok (NFloat res)) end end end)) end) else (
 if (beq unit_system ([109;105;120;101;100]%N : str)) then (
 if (match unit_prefix with Some (c_ :: r_) => let unit_prefix_s := (c_ :: r_) in (negb (endswith ([105]%N : str) unit_prefix_s)) | _ => false end) then (
@@ -82,49 +122,89 @@ let base := Some (1000)%Z in
 if (negb (truthy unit_prefix)) then (
 let res := magnitude in
 if return_int then (
-match ceil_to_Z res with Exn e_ => Exn e_ | Ok z_ => Ok (NInt z_) end) else (
+match ceil_to_Z res with
+| Ok z_ => Ok (NInt z_)
+| Exn e_ => match e_ with OverflowError => (
+Exn ValueError)
+| _ => Exn e_ end
+end) else (
 Ok (NFloat res))) else (
 match lookup_opt unit_prefix unit_prefix_exponent with None => Exn KeyError | Some e_ =>
 match py_pow base e_ with Exn x_ => Exn x_ | Ok p_ =>
 match f_mul_int magnitude p_ with Exn x_ => Exn x_ | Ok res =>
 if return_int then (
-match ceil_to_Z res with Exn e_ => Exn e_ | Ok z_ => Ok (NInt z_) end) else (
+match ceil_to_Z res with
+| Ok z_ => Ok (NInt z_)
+| Exn e_ => match e_ with OverflowError => (
+Exn ValueError)
+| _ => Exn e_ end
+end) else (
 Ok (NFloat res)) end end end)) else (
 let base := Some (1000)%Z in
 if (negb (truthy unit_prefix)) then (
 let res := magnitude in
 if return_int then (
-match ceil_to_Z res with Exn e_ => Exn e_ | Ok z_ => Ok (NInt z_) end) else (
+match ceil_to_Z res with
+| Ok z_ => Ok (NInt z_)
+| Exn e_ => match e_ with OverflowError => (
+Exn ValueError)
+| _ => Exn e_ end
+end) else (
 Ok (NFloat res))) else (
 match lookup_opt unit_prefix unit_prefix_exponent with None => Exn KeyError | Some e_ =>
 match py_pow base e_ with Exn x_ => Exn x_ | Ok p_ =>
 match f_mul_int magnitude p_ with Exn x_ => Exn x_ | Ok res =>
 if return_int then (
-match ceil_to_Z res with Exn e_ => Exn e_ | Ok z_ => Ok (NInt z_) end) else (
+match ceil_to_Z res with
+| Ok z_ => Ok (NInt z_)
+| Exn e_ => match e_ with OverflowError => (
+Exn ValueError)
+| _ => Exn e_ end
+end) else (
 Ok (NFloat res)) end end end)))
 end) else (
 let base := Some (1024)%Z in
 if (negb (truthy unit_prefix)) then (
 let res := magnitude in
 if return_int then (
-match ceil_to_Z res with Exn e_ => Exn e_ | Ok z_ => Ok (NInt z_) end) else (
+match ceil_to_Z res with
+| Ok z_ => Ok (NInt z_)
+| Exn e_ => match e_ with OverflowError => (
+Exn ValueError)
+| _ => Exn e_ end
+end) else (
 Ok (NFloat res))) else (
 match lookup_opt unit_prefix unit_prefix_exponent with None => Exn KeyError | Some e_ =>
 match py_pow base e_ with Exn x_ => Exn x_ | Ok p_ =>
 match f_mul_int magnitude p_ with Exn x_ => Exn x_ | Ok res =>
 if return_int then (
-match ceil_to_Z res with Exn e_ => Exn e_ | Ok z_ => Ok (NInt z_) end) else (
+match ceil_to_Z res with
+| Ok z_ => Ok (NInt z_)
+| Exn e_ => match e_ with OverflowError => (
+Exn ValueError)
+| _ => Exn e_ end
+end) else (
 Ok (NFloat res)) end end end))) else (
 if (negb (truthy unit_prefix)) then (
 let res := magnitude in
 if return_int then (
-match ceil_to_Z res with Exn e_ => Exn e_ | Ok z_ => Ok (NInt z_) end) else (
+match ceil_to_Z res with
+| Ok z_ => Ok (NInt z_)
+| Exn e_ => match e_ with OverflowError => (
+Exn ValueError)
+| _ => Exn e_ end
+end) else (
 Ok (NFloat res))) else (
 match lookup_opt unit_prefix unit_prefix_exponent with None => Exn KeyError | Some e_ =>
 match py_pow base e_ with Exn x_ => Exn x_ | Ok p_ =>
 match f_mul_int magnitude p_ with Exn x_ => Exn x_ | Ok res =>
 if return_int then (
-match ceil_to_Z res with Exn e_ => Exn e_ | Ok z_ => Ok (NInt z_) end) else (
+match ceil_to_Z res with
+| Ok z_ => Ok (NInt z_)
+| Exn e_ => match e_ with OverflowError => (
+Exn ValueError)
+| _ => Exn e_ end
+end) else (
 Ok (NFloat res)) end end end))) end)
 | None => (
 Exn ValueError)
